@@ -96,6 +96,21 @@ def compare_csv(path, dist):
     return bad
 
 
+def csv_label_case(path, dist):
+    """the name columns of the file against the model's labels (Model/Export.v csv_label / name_width), one entry per (aircraft, segment)"""
+    header, rows = read_csv(path)
+    pairs = []
+    for r_ in rows:
+        if not pairs or pairs[-1] != (r_[0], r_[1]):
+            pairs.append((r_[0], r_[1]))
+    anames = list(dist.keys())
+    snames = [sn for an in dist for sn in dist[an]]
+    arows = [an for an in dist for sn in dist[an]]
+    lst = lambda l: "[%s]" % "; ".join(cstr(x) for x in l)
+    return ("str_list_eqb (map (csv_label (name_width %s)) %s) %s && str_list_eqb (map (csv_label (name_width %s)) %s) %s"
+            % (lst(anames), lst(arows), lst([p_[0] for p_ in pairs]), lst(snames), lst(snames), lst([p_[1] for p_ in pairs])))
+
+
 def fresh_scene(MX, sd, acs):
     return gen.build_scene(MX, copy.deepcopy(sd), copy.deepcopy(acs))
 
@@ -121,18 +136,20 @@ def gen_case(rng, hist, two=False):
 # ----------------------------------------------------------------------------- A. files written through filename=
 def check_files(chk, MX, tmp):
     rng = chk.rng
-    for it in range(chk.q(10, 80)):
+    label_cases, label_descr = [], []
+    nfiles_ = chk.q(10, 80)
+    for it in range(nfiles_ + 2):
         two = rng.random() < 0.25
         sd, acs = gen_case(rng, chk.hist, two)
         name, variants = JSON_METHODS[it % len(JSON_METHODS)] if rng.random() < 0.8 else ("distributions", [{}, {"radians": False}])
         kw = copy.deepcopy(rng.choice(variants))
-        if it == 1:
+        if it == nfiles_:
             # (enumerated) names longer than the usual ones: the rows of the CSV are attributed to segments by their names
             name, kw = "distributions", {}
             acs = [("research_glider_configuration_%d" % k_, dict(a_, wings={"long_outboard_panel_" + w_: v_ for w_, v_ in a_["wings"].items()}), st_, cs_)
                    for k_, (n_, a_, st_, cs_) in enumerate(acs)]
             chk.count("file:long-names")
-        if it == 2:
+        if it == nfiles_ + 1:
             # (enumerated) a density field: the reference density at the aircraft is one interpolated value
             name, kw = "solve_forces", {}
             sd["scene"].setdefault("atmosphere", {})["rho"] = [[x_, y_, z_, 0.0023769 * (1.0 + 2.0e-5 * z_)] for x_ in (-500.0, 500.0) for y_ in (-500.0, 500.0)
@@ -164,6 +181,8 @@ def check_files(chk, MX, tmp):
             bad = compare_csv(fn, with_file)
             if bad:
                 chk.violation("file:csv:" + name, dict(rep, what="CSV differs from the returned dictionary", differences=bad[:5]))
+            label_cases.append(csv_label_case(fn, with_file))
+            label_descr.append(dict(rep, what="labels of the distributions file differ from the model's csv_label"))
         else:
             try:
                 content = json.load(open(fn))
@@ -173,6 +192,16 @@ def check_files(chk, MX, tmp):
             bad = api.compare({"r": content}, {"r": jsonable(with_file)}, rtol=0.0, atol=0.0)
             if bad:
                 chk.violation("file:content:" + name, dict(rep, what="file content differs from the returned values", differences=bad[:6]))
+    imports = ["From Coq Require Import String.", "From MuxV Require Import Model.Validate Model.Export."]
+    defs = ["Close Scope float_scope.", "Open Scope string_scope.", "Open Scope list_scope.",
+            "Definition str_list_eqb (a b : list string) : bool := Nat.eqb (List.length a) (List.length b) && forallb (fun p => String.eqb (fst p) (snd p)) (combine a b)."]
+    failing, _, errors = common.run_cases("C20csv", imports, defs, label_cases, chunk=50)
+    for e in errors:
+        chk.fail_obligation("correspondence:C20-csv-coqc", e)
+    for i in failing:
+        chk.violation("file:csv-labels", label_descr[i])
+    chk.cov["traces_validated_against_impl"] += len(label_cases)
+
 
 
 # ----------------------------------------------------------------------------- B. command-line runner
